@@ -153,7 +153,7 @@ def run(ctx):
                 r.ok("%s|sniff" % ty, "sniff dominates the loop; quit ⇒ loop skipped", fn=f)
             eb = ExprBuilder(f)
             rng = eb.operand(db[0].args[2])
-            if mentions_call(rng, "core::cmp::min"):
+            if mentions_call(rng, "core::cmp::min", "core::cmp::Ord::min"):
                 r.ok("%s|range" % ty, "sniffed prefix = min(len, DEFAULT_BUFFER_CAPACITY)", fn=f)
             else:
                 r.bad("%s|range" % ty, "the sniffed prefix is `%s`" % show(rng)[:80], fn=f)
